@@ -108,6 +108,45 @@ func (s *Signer) Sign(b *schema.Builder, sigTime time.Time) sto.Blob {
 	return sto.FromBytes([]byte(signed))
 }
 
+// badSign signs b with an extra nonce field and then alters the nonce, so the result is
+// a well-formed signed schema blob whose signature does not verify.
+func (s *Signer) badSign(b *schema.Builder, sigTime time.Time) sto.Blob {
+	b.SetRawStringField("verifNonce", "signed-over-this")
+	good := s.Sign(b, sigTime)
+	bad := strings.Replace(string(good.Data), "signed-over-this", "altered-afterward", 1)
+	if bad == string(good.Data) {
+		panic("hw: badSign: nonce not found")
+	}
+	return sto.FromBytes([]byte(bad))
+}
+
+// BadSigClaim returns an attribute claim whose signature is invalid.
+func (s *Signer) BadSigClaim(kind string, pn blob.Ref, attr, value string, date time.Time) sto.Blob {
+	var b *schema.Builder
+	switch kind {
+	case Set:
+		b = schema.NewSetAttributeClaim(pn, attr, value)
+	case Add:
+		b = schema.NewAddAttributeClaim(pn, attr, value)
+	default:
+		b = schema.NewDelAttributeClaim(pn, attr, value)
+	}
+	b.SetClaimDate(date)
+	return s.badSign(b, date)
+}
+
+// BadSigPermanode returns a planned permanode whose signature is invalid.
+func (s *Signer) BadSigPermanode(key string) sto.Blob {
+	return s.badSign(schema.NewPlannedPermanode(key), time.Unix(0, 0))
+}
+
+// BadSigDelete returns a delete claim on target whose signature is invalid.
+func (s *Signer) BadSigDelete(target blob.Ref, date time.Time) sto.Blob {
+	b := schema.NewDeleteClaim(target)
+	b.SetClaimDate(date)
+	return s.badSign(b, date)
+}
+
 // Permanode returns a deterministic permanode (planned permanode keyed by key).
 func (s *Signer) Permanode(key string) sto.Blob {
 	return s.Sign(schema.NewPlannedPermanode(key), time.Unix(0, 0))
